@@ -233,6 +233,12 @@ def gen_history(rng):
             'H_sparse': bool(rng.random() < 0.3), 'Df_sparse': bool(rng.random() < 0.3)}
     if solver == 'chol2' and rng.random() < 0.5:
         data['G']['sparse'] = data['A']['sparse'] = data['H_sparse'] = data['Df_sparse'] = True    # CHOLMOD branch
+    ups = upper_positions(dims)
+    if ups and rng.random() < 0.5:
+        # the strictly upper triangles of the 's' blocks of the columns of G are never referenced: the factories
+        # get zeros (lower-triangular storage) or junk there, the reference keeps the symmetric matrix
+        mode_ = rng.choice(['zero', 'junk'])
+        data['G_upper'] = [0.0 if mode_ == 'zero' else round(rng.uniform(-9, 9), 3) for _ in range(n * len(ups))]
     ops = []
 
     def gen_factor(singular=False):
@@ -316,7 +322,17 @@ def gen_history(rng):
             ops.append(f)
             ops.append({'op': 'solve_other', 'b': [gen.rvec(rng, n), gen.rvec(rng, p), sym_rhs(rng, dims, mnl)]})
     ops.append({'op': 'solve', 'b': [gen.rvec(rng, n), gen.rvec(rng, p), sym_rhs(rng, dims, mnl)]})
+    nup = len(upper_positions(dims, mnl))
+    if nup:
+        for o_ in ops:
+            if o_['op'] in ('solve', 'solve_other') and rng.random() < 0.5:
+                o_['bz_upper'] = [round(rng.uniform(-9, 9), 3) for _ in range(nup)]
     return {'type': 'history', 'data': data, 'ops': ops}
+
+
+def upper_positions(dims, mnl=0):
+    """indices, within a cone vector, of the strictly upper triangles of the 's' blocks (never referenced)"""
+    return [mnl + off + jj * m_ + ii for kind_, off, m_ in CR.blocks(dims) if kind_ == 's' for jj in range(m_) for ii in range(jj)]
 
 
 def sym_rhs(rng, dims, mnl):
@@ -369,7 +385,15 @@ def run_history(case, journal):
         s.update(sig)
         return {'oracle': oracle, 'klass': '%s:%s:%s' % (oracle, data['solver'], data.get('data_class', 'regular')), 'sig': s, 'detail': detail}
 
-    G, A = gen.M(data['G']), gen.M(data['A'])
+    Gspec = data['G']
+    if data.get('G_upper'):
+        gv, cd_ = list(Gspec['v']), Gspec['m']
+        ups_ = upper_positions(dims)
+        for j_ in range(n):
+            for k_, pos_ in enumerate(ups_):
+                gv[j_ * cd_ + pos_] = data['G_upper'][j_ * len(ups_) + k_]
+        Gspec = dict(Gspec, v=gv)
+    G, A = gen.M(Gspec), gen.M(data['A'])
     data = dict(data, Gd=(data['G']['m'], n, data['G']['v']), Ad=(p, n, data['A']['v']))
     lseam = faults.LapackSeam({})
     lseam.install(misc)
@@ -471,7 +495,11 @@ def run_history(case, journal):
                     continue
                 f, W, Wl, Ht, Dt = which
                 bx, by, bz = op['b']
-                x, y, z = gen.V(bx), gen.V(by), gen.V(bz)
+                bz_given = list(bz)
+                if op.get('bz_upper'):
+                    for k_, pos_ in enumerate(upper_positions(dims, mnl)):
+                        bz_given[pos_] = op['bz_upper'][k_]
+                x, y, z = gen.V(bx), gen.V(by), gen.V(bz_given)
                 imgW = O.image(W)
                 try:
                     f(x, y, z)
